@@ -39,12 +39,28 @@ func c11A2(nh []byte) c11AttrSpec {
 }
 
 // attribute sets per family: a1, a2 (other attributes, same next hop as a1), a1 with another next hop
+func c11A1mp(nh []byte) c11AttrSpec {
+	a := c11A1(nh)
+	a.MP = true
+	return a
+}
+
+var (
+	c11nh4x = []byte{192, 0, 2, 2}
+	c11nh4y = []byte{192, 0, 2, 3}
+)
+
+// c11ListAttrSel: attribute-set indices used by c11Lists per family (nil: the first three of ipv4, all others)
+var c11ListAttrSel map[int][]int
+
 var c11AttrSets = [][]c11AttrSpec{
-	{c11A1(c11nh4), c11A2(c11nh4), c11A1(c11nh6)}, // ipv4: a1, a2, a1 with an IPv6 next hop (RFC 8950)
+	// ipv4: a1, a2, a1 with an IPv6 next hop (RFC 8950); and, for the phase "mpv4" only, a1 received with its
+	// IPv4 next hop inside MP_REACH_NLRI (RFC 4760 allows it), two different next hops
+	{c11A1(c11nh4), c11A2(c11nh4), c11A1(c11nh6), c11A1mp(c11nh4x), c11A1mp(c11nh4y)},
 	{c11A1(c11nh6), c11A2(c11nh6), c11A1(c11nhLL)}, // ipv6: a1, a2, a1 with global + link-local next hop
 	{c11A1(c11nh4), c11A2(c11nh4)},                 // vpnv4: a1, a2
 }
-var c11AttrNames = [][]string{{"a1", "a2", "a1+v6nh"}, {"a1", "a2", "a1+linklocal"}, {"a1", "a2"}}
+var c11AttrNames = [][]string{{"a1", "a2", "a1+v6nh", "a1+mp-nh-x", "a1+mp-nh-y"}, {"a1", "a2", "a1+linklocal"}, {"a1", "a2"}}
 
 type c11Op struct {
 	K  int    `json:"k"` // 0 announce, 1 withdraw, 2 end-of-rib
@@ -193,7 +209,16 @@ func c11Lists(n, m4, m6 int, fn func(ops []c11Op)) {
 					n6++
 				}
 			}
-			for a := range c11AttrSets[p.Fam] {
+			sel := c11ListAttrSel[p.Fam]
+			if sel == nil {
+				for a := range c11AttrSets[p.Fam] {
+					if p.Fam == c11V4 && a >= 3 {
+						break
+					}
+					sel = append(sel, a)
+				}
+			}
+			for _, a := range sel {
 				for id := uint32(1); id <= 2; id++ {
 					try(c11Op{K: c11Ann, P: pi, A: a, ID: id}, n4, n6)
 				}
@@ -269,4 +294,30 @@ func TestVerif_C11_Lists(t *testing.T) {
 		c11Flush(r, ctxs) // lengths in increasing order: the shortest failing list is the one kept
 	}
 	r.Bounds["lists_per_length"] = lists
+	// phase "mpv4": IPv4 routes whose next hop arrived inside MP_REACH_NLRI (the attribute is stripped when the
+	// message is packed, so it must still tell routes with different next hops apart), against the classic form
+	c11ListAttrSel = map[int][]int{c11V4: {0, 3, 4}}
+	defer func() { c11ListAttrSel = nil }()
+	mpLists := 0
+	for n := 1; n <= maxLen; n++ {
+		total := 0
+		c11Lists(n, 2, 0, func([]c11Op) { total++ })
+		mpLists += total
+		ctxs := make([]*c11Ctx, W)
+		r.Parallel(W, func(wk int, rep *vr.Report) {
+			c := c11NewCtx(rep)
+			ctxs[wk] = c
+			i := 0
+			c11Lists(n, 2, 0, func(ops []c11Op) {
+				i++
+				if i%W != wk {
+					return
+				}
+				c.idx = int64(1<<40) + int64(n)<<32 + int64(i)*4
+				w.run(c, ops, c11Cfgs[:2])
+			})
+		})
+		c11Flush(r, ctxs)
+	}
+	r.Bounds["phase_mpv4"] = fmt.Sprintf("%d lists of length <=%d over 2 ipv4 prefixes x {a1, a1 with next hop x in MP_REACH_NLRI, a1 with next hop y in MP_REACH_NLRI} (+ the vpnv4 prefix, withdrawals, EOR) x ADD-PATH {off,on}", mpLists, maxLen)
 }
